@@ -2,6 +2,7 @@ package harness
 
 import (
 	"errors"
+	"strconv"
 	"sync"
 	"testing"
 	"testing/synctest"
@@ -102,5 +103,6 @@ func runLimitBubble(sc scenario) result {
 		res.addI(o[1])
 	}
 	res.addI(int64(tclose))
+	res.vals = append(res.vals, "goroutines", strconv.Itoa(libGoroutines()))
 	return res
 }
